@@ -181,8 +181,14 @@ def make_sessions(ctx, nses):
             t = ctx.rng.choice([1, 2, 3, 4])
             if table:
                 seqs2 = nc.repertoire(ctx.rng, n, maxmut=1, maxlen=9, families=2, short=0)
+                # twins: the same letters cut at another place (rows whose cells concatenate to the same text are different TCRs)
+                for tw in range(min(2, n // 3)):
+                    if len(seqs[tw]) >= 2:
+                        seqs[-1 - tw], seqs2[-1 - tw] = seqs[tw][:-1], seqs[tw][-1] + seqs2[tw]
                 rows = [[a, b] for a, b in zip(seqs, seqs2)]
-                data = pd.DataFrame(dict(TRAV=["TRAV1-1*01"] * n, CDR3A=seqs, TRBV=["TRBV2*01"] * n, CDR3B=seqs2), index=[f"c{i}" for i in range(n)][::-1])
+                cols = dict(TRAV=["TRAV1-1*01"] * n, CDR3A=seqs, TRBV=["TRBV2*01"] * n, CDR3B=seqs2)
+                order = [["TRAV", "CDR3A", "TRBV", "CDR3B"], ["CDR3A", "CDR3B"], ["TRAV", "TRBV", "CDR3A", "CDR3B"], ["CDR3B", "CDR3A", "TRBV"]][(sid // 4) % 4]
+                data = pd.DataFrame({c_: cols[c_] for c_ in order}, index=[f"c{i}" for i in range(n)][::-1])
             else:
                 rows = [[a] for a in seqs]
                 data = [seqs, np.array(seqs, dtype=object), pd.Series(seqs, index=range(5, 5 + n), dtype=object)][sid % 3]
@@ -224,7 +230,8 @@ def big_sessions(ctx, first_sid, count):
                     useqs.append(s_)
         useqs2 = nc.repertoire(ctx.rng, m, maxmut=1, maxlen=8, families=2, short=0)
         urows = [[a, b] for a, b in zip(useqs, useqs2)] if table else [[a] for a in useqs]
-        big = ctx.rng.choice([1030, 1100, 1300] if r % 3 else [1025, 2060])
+        from .. import lifted as lf
+        big = lf.boundary_size(r + 2 + ctx.seed)
         idx = list(range(m)) + [ctx.rng.randrange(m) for _ in range(big - m)]
         ctx.rng.shuffle(idx)
         rows = [urows[i] for i in idx]
